@@ -81,7 +81,7 @@ def confirm(rec, families):
 
 def run(pid: str, tier: str, families=None, extra_requests=None, worker=None, variants=None,
         confirm_fn=None, validate=True, level="model_checking", functions=None, extra_assumptions=(),
-        task_filter=None, extra=None, validator=None):
+        task_filter=None, extra=None, validator=None, quick_corpus="full"):
     """Generic kernel sweep.  ``variants``: list of dicts merged into every task (one task per
     variant), e.g. the two C05 programs."""
     t0 = time.time()
@@ -92,7 +92,7 @@ def run(pid: str, tier: str, families=None, extra_requests=None, worker=None, va
     seed = common.seed()
     rep = common.Reporter(pid)
     if tier == "quick":
-        reqs = corpus.quick_requests()
+        reqs = corpus.quick_requests() if quick_corpus == "full" else corpus.core_requests()
         D, N, dim_mode, max_paths, tb = 2, 2, "corners", 6000, 240
     else:
         reqs = corpus.thorough_requests(seed)
